@@ -1,6 +1,7 @@
 // C47: WebSocket and TLS stream tunnels are byte-transparent.
 //
-// Drives the REAL bfe_websocket protocol handler (NewProtoHandler -> serverConn.serve: findBackend,
+// Drives the REAL bfe_websocket protocol handler behind bfe_server's real conn/response (Hijack) objects
+// (NewProtoHandler -> serverConn.serve: findBackend,
 // websocketHandshake, websocketDataTransfer, wait loop) and the REAL bfe_stream handler (NewProtoHandler ->
 // serve: findBackend, TLSProxyHandler, wait loop; behind bfe_tls via bfe_util.MockServer) between a scripted
 // client and a scripted backend on loopback TCP.
@@ -26,8 +27,8 @@ import (
 
 	"bfeverif/harness/internal/vh"
 	"github.com/bfenetworks/bfe/bfe_balance/backend"
-	"github.com/bfenetworks/bfe/bfe_bufio"
 	"github.com/bfenetworks/bfe/bfe_http"
+	"github.com/bfenetworks/bfe/bfe_server"
 	"github.com/bfenetworks/bfe/bfe_stream"
 	"github.com/bfenetworks/bfe/bfe_tls"
 	"github.com/bfenetworks/bfe/bfe_util"
@@ -115,13 +116,12 @@ func setup() {
 			backendCh <- c
 		}
 	}()
-	// websocket proxy: what bfe_server's conn.serve does for an upgrade request, with bfe_websocket's own
-	// MockResponseWriter standing in for bfe_server.response (same Hijack contract: the conn and its bufio pair)
+	// websocket proxy: bfe_server's own connection + response objects (hook VerifC47ServeUpgrade: real newConn,
+	// request read as conn.readRequest does, real response.WriteHeader/Flush/Hijack) around the real handler
 	wsL, err = net.Listen("tcp", "127.0.0.1:0")
 	if err != nil {
 		panic(err)
 	}
-	hs := &bfe_http.Server{CloseNotifyCh: make(chan bool), GracefulShutdownTimeout: 3 * time.Second}
 	handler := bfe_websocket.NewProtoHandler(&bfe_websocket.Server{BalanceHandler: balance})
 	go func() {
 		for {
@@ -131,17 +131,7 @@ func setup() {
 			}
 			go func() {
 				defer conn.Close()
-				br := bfe_bufio.NewReader(conn)
-				bw := bfe_bufio.NewWriter(conn)
-				wr := bfe_bufio.NewReadWriter(br, bw)
-				req, err := bfe_http.ReadRequest(wr.Reader, 1024)
-				if err != nil {
-					return
-				}
-				rw := bfe_websocket.NewMockResponseWriter(conn, wr)
-				if bfe_websocket.CheckUpgradeWebSocket(req) {
-					handler(hs, rw, req)
-				}
+				bfe_server.VerifC47ServeUpgrade(conn, bfe_websocket.CheckUpgradeWebSocket, handler)
 			}()
 		}
 	}()
